@@ -4,6 +4,7 @@ from __future__ import annotations
 from hypothesis import strategies as st
 
 from vlib.astgen import ast_features, st_ast
+from vlib import gh
 from vlib.common import Stats, Violation, hyp, shard_seed
 from vlib.refcompile import proj_c07, ref_compile
 
@@ -80,6 +81,55 @@ def unit_reuse(a):
     return pc.unit_reuse(a, st_ast(**BIAS), proj_c07, WHAT, 67)
 
 
+def check_shared_compiler(case, stats):
+    """ONE compiler used by several threads at once on different documents (ids aside, each result == the solo result)"""
+    import sys
+    import threading
+    from vlib.refcompile import proj_c06, proj_c08
+    docs = [d for _, d, _ in pc.golden_docs()][:12]
+    solo = [gh_compile_proj(gh.Compiler(), d) for d in docs]
+    comp = gh.Compiler()
+    errors = []
+
+    def work(k):
+        try:
+            for rep in range(case["reps"]):
+                for i in range(len(docs)):
+                    j = (i + k * 3) % len(docs)
+                    if gh_compile_proj(comp, docs[j]) != solo[j]:
+                        errors.append(j)
+                        return
+        except BaseException as e:  # noqa
+            errors.append(repr(e))
+    old = sys.getswitchinterval()
+    sys.setswitchinterval(1e-6)
+    try:
+        ts = [threading.Thread(target=work, args=(k,), daemon=True) for k in range(4)]
+        for t in ts:
+            t.start()
+        for t in ts:
+            t.join(300)
+    finally:
+        sys.setswitchinterval(old)
+    stats.case(("shared-compiler", case["reps"]), True, sample=case)
+    if errors:
+        raise Violation(case, "one Compiler shared by 4 threads: document #%r compiled to other steps / tags / names than alone" % (errors[0],))
+
+
+def gh_compile_proj(comp, doc):
+    import json
+    from vlib.refcompile import proj_c06, proj_c08
+    pk = comp.compile(json.loads(json.dumps(doc)))
+    return (proj_c07(pk), proj_c06(pk), proj_c08(pk))
+
+
+def unit_shared(a):
+    from vlib.common import sweep
+    stats = Stats()
+    sweep(stats, [{"sub": "shared-compiler", "reps": a["reps"]}], check_shared_compiler)
+    return stats
+
+
 def unit_golden(a):
     return pc.unit_golden(proj_c07, WHAT)
 
@@ -90,6 +140,8 @@ def replay(case, stats):
     if case["sub"] in ("text", "rawtext"):
         from . import textdocs
         return textdocs.check_text(case, stats, "C07")
+    if case["sub"] == "shared-compiler":
+        return check_shared_compiler(case, stats)
     if case["sub"] == "reuse":
         return pc.check_reuse(case, stats, proj_c07, WHAT)
     return check_ast(case, stats)
@@ -100,6 +152,7 @@ def run(ctx):
     q = ctx.quick
     ctx.units("golden", unit_golden, [{}])
     ctx.units("ast-hypothesis", unit_ast, [{"n": 1500 if q else 20000, "seed": ctx.seed, "shard": i} for i in range(8 if q else 16)], procs=16)
+    ctx.units("shared-compiler-threads", unit_shared, [{"reps": 10 if q else 100}])
     ctx.units("compiler-reuse", unit_reuse, [{"n": 450 if q else 4000, "seed": ctx.seed, "shard": i} for i in range(8 if q else 16)], procs=16)
     from . import textdocs
     textdocs.run_text(ctx, "C07")
